@@ -186,31 +186,6 @@ def pumpWriter (s : St) (cid : Nat) : St :=
       let s := s.modConn cid fun c => { c with wbuf := c.wbuf ++ [m], outQ := c.outQ.drop 1 }
       demandAttention s cid) s
 
-def pumpAll (infoOf : AMsg → MsgInfo) (s : St) : St :=
-  s.conns.foldl (fun s c =>
-    let s := (List.range ((s.conn? c.id).map (·.inQ.length) |>.getD 0)).foldl (fun s _ => pumpReader infoOf s c.id) s
-    pumpWriter s c.id) s
-
-def busy (w : World) : Bool :=
-  !w.st.pipe.isEmpty ||
-  w.st.conns.any fun c =>
-    (!c.inQ.isEmpty && !c.workersStopped && !c.readerCrashed) || (!c.outQ.isEmpty && !c.workersStopped) ||
-    (w.st.peerSockets.contains c.id && !w.blocked.contains c.id && !w.st.inProgress.contains c.id && c.state != .closed &&
-      (!c.wbuf.isEmpty || c.state == .connecting)) ||
-    (w.st.peerSockets.contains c.id && (match w.inbox.find? (·.1 == c.id) with | some (_, _ :: _) => true | _ => false))
-
-/-- The harness's "settle": I/O iteration, pump, until nothing moves. -/
-def settle (infoOf : AMsg → MsgInfo) : Nat → World → World
-  | 0, w => w
-  | fuel + 1, w =>
-    let w := ioIteration w
-    let before := w.st.conns.any fun c =>
-      (!c.inQ.isEmpty && !c.workersStopped && !c.readerCrashed) || (!c.outQ.isEmpty && !c.workersStopped)
-    let w := { w with st := pumpAll infoOf w.st }
-    if busy w || before then settle infoOf fuel w else w
-
-/-! ### application API -/
-
 /-- `route_answer`. -/
 def routeAnswer (s : St) (m : AMsg) : Except Exn (St × Nat) :=
   match s.peerWaiting.find? (fun (p : String × List Nat) => p.2.contains m.hbh) with
@@ -230,6 +205,104 @@ def routeAnswerSideEffect (s : St) (m : AMsg) : St :=
   | some (host, _) =>
     { s with peerWaiting := s.peerWaiting.map fun (p : String × List Nat) =>
       if p.1 == host then (p.1, p.2.filter (· != m.hbh)) else p }
+
+/-- `Application.send_answer` of an already built answer: `(state, routed?)`. -/
+def sendBuiltAnswer (s : St) (ans : AMsg) (typed : Bool) : St × Bool :=
+  match routeAnswer s ans with
+  | .error _ => (routeAnswerSideEffect s ans, false)
+  | .ok (s, cid) => ((sendMessage s cid ans typed).1, true)
+
+/-- `ThreadingApplication._wait_for_recv_msg`: drain the receive queue. -/
+def pumpAppRecv (infoOf : AMsg → MsgInfo) (s : St) (ai : Nat) : St :=
+  match s.apps[ai]? with
+  | none => s
+  | some a =>
+    if a.kind != .threading || !a.recvAlive || a.held then s
+    else a.recvQ.foldl (fun s m =>
+      match s.apps[ai]? with
+      | none => s
+      | some a =>
+        if !a.recvAlive then s
+        else
+          let s := s.modApp ai fun a => { a with recvQ := a.recvQ.drop 1 }
+          if a.maxThreads > 0 && a.slots ≥ a.maxThreads then
+            -- queue.Full: answer DIAMETER_TOO_BUSY
+            let info := infoOf m
+            let (s, ok) := sendBuiltAnswer s (generateAnswer s m info (some 3004)) info.ansTyped
+            if ok || Config.appConsumersCatch then s
+            else (s.modApp ai fun a => { a with recvAlive := false }).emit (.crash s!"app a{ai} _recv_queue_consumer" "NotRoutable")
+          else
+            let s := s.modApp ai fun a => { a with slots := a.slots + 1 }
+            { s with deferred := s.deferred ++ [(ai, m)] }) s
+
+/-- `ThreadingApplication._wait_for_resp_msg`: drain the response queue. -/
+def pumpAppResp (infoOf : AMsg → MsgInfo) (s : St) (ai : Nat) : St :=
+  match s.apps[ai]? with
+  | none => s
+  | some a =>
+    if a.kind != .threading || !a.respAlive || a.held then s
+    else
+      let s := a.respQ.foldl (fun s ans =>
+        match s.apps[ai]? with
+        | none => s
+        | some a =>
+          if !a.respAlive then s
+          else
+            let s := s.modApp ai fun a => { a with respQ := a.respQ.drop 1, slots := a.slots - 1 }
+            let (s, ok) := sendBuiltAnswer s ans true
+            if ok || Config.appConsumersCatch then s
+            else (s.modApp ai fun a => { a with respAlive := false }).emit (.crash s!"app a{ai} _resp_queue_consumer" "NotRoutable")) s
+      -- `None` results only give their slot back
+      match s.apps[ai]? with
+      | some a => if a.respAlive then s.modApp ai fun a => { a with slots := a.slots - a.respNone, respNone := 0 } else s
+      | none => s
+
+/-- A started handler thread runs `_process_recv_msg`. -/
+def runHandler (infoOf : AMsg → MsgInfo) (s : St) (k : Nat) : St :=
+  match s.deferred[k]? with
+  | none => s
+  | some (ai, m) =>
+    let s := { s with deferred := s.deferred.eraseIdx k, appRequests := s.appRequests ++ [(ai, m)] }
+    let s := s.emit (.appReq ai m)
+    let info := infoOf m
+    match s.apps[ai]? with
+    | none => s
+    | some a =>
+      if a.outcome == "none" then
+        if Config.slotAlwaysReturned then s.modApp ai fun a => { a with respNone := a.respNone + 1 } else s
+      else
+        let rc := if a.outcome == "raise" then 5012 else 2001
+        s.modApp ai fun a => { a with respQ := a.respQ ++ [generateAnswer s m info (some rc)] }
+
+def pumpAll (infoOf : AMsg → MsgInfo) (s : St) : St :=
+  let s := s.conns.foldl (fun s c =>
+    let s := (List.range ((s.conn? c.id).map (·.inQ.length) |>.getD 0)).foldl (fun s _ => pumpReader infoOf s c.id) s
+    pumpWriter s c.id) s
+  (List.range s.apps.length).foldl (fun s ai => pumpAppResp infoOf (pumpAppRecv infoOf s ai) ai) s
+
+def appsBusy (s : St) : Bool :=
+  s.apps.any fun a => a.kind == .threading && !a.held &&
+    ((a.recvAlive && !a.recvQ.isEmpty) || (a.respAlive && (!a.respQ.isEmpty || a.respNone > 0)))
+
+def busy (w : World) : Bool :=
+  !w.st.pipe.isEmpty || appsBusy w.st ||
+  w.st.conns.any fun c =>
+    (!c.inQ.isEmpty && !c.workersStopped && !c.readerCrashed) || (!c.outQ.isEmpty && !c.workersStopped) ||
+    (w.st.peerSockets.contains c.id && !w.blocked.contains c.id && !w.st.inProgress.contains c.id && c.state != .closed &&
+      (!c.wbuf.isEmpty || c.state == .connecting)) ||
+    (w.st.peerSockets.contains c.id && (match w.inbox.find? (·.1 == c.id) with | some (_, _ :: _) => true | _ => false))
+
+/-- The harness's "settle": I/O iteration, pump, until nothing moves. -/
+def settle (infoOf : AMsg → MsgInfo) : Nat → World → World
+  | 0, w => w
+  | fuel + 1, w =>
+    let w := ioIteration w
+    let before := appsBusy w.st || w.st.conns.any fun c =>
+      (!c.inQ.isEmpty && !c.workersStopped && !c.readerCrashed) || (!c.outQ.isEmpty && !c.workersStopped)
+    let w := { w with st := pumpAll infoOf w.st }
+    if busy w || before then settle infoOf fuel w else w
+
+/-! ### application API -/
 
 /-- `Application.send_answer(generate_answer(req, rc))`. -/
 def appSendAnswer (s : St) (ai : Nat) (req : AMsg) (info : MsgInfo) (rc : Nat) : St :=
